@@ -14,7 +14,8 @@ CLAIMED = {
     "C08": ("Structural necessary conditions of determinism, decided exhaustively over the source: no library function "
             "calls a nondeterminism source directly; every range over a map (and every use of a slice that carries a "
             "map's keys in map order) in engine/inspection/migration code is order-insensitive by construction or "
-            "listed with a confirmed reason; the named sorted renderers sort what they collect. Does not decide "
+            "listed with a confirmed reason; the named sorted renderers sort what they collect. Round 3: a listed comparator compares each listed field between the two elements. "
+            "Does not decide "
             "byte-identical output as an observed fact nor determinism of dependencies.",
             "custom AST+types map-iteration order classifier, who-may-call over SSA call sites",
             "DESIGN.md §4 C08"),
@@ -23,6 +24,7 @@ CLAIMED = {
             "typestate analysis (mutator results forked true/false, loops unrolled) proving mutated <=> returns true, "
             "mutated => paired change event, no event without mutation; guard/store/event value agreement; the group "
             "re-evaluation and contact-refresh pairs in the engine. Also: an Apply that empties a list and rebuilds it confirms every change report by a before/after comparison (reset-and-rebuild); the Contact methods that take a URN compare by Identity() on both sides everywhere and ContactURN.Equal compares the complete raw URN. "
+            "Round 3: the contact_refreshed guard compares with the current contact of the session being updated; pointer-equality helpers used as Apply guards answer true for (nil, nil). "
             "Does not decide that replaying events reproduces "
             "the contact value, nor value-level idempotence beyond the reset-and-rebuild shape.",
             "who-may-call + path-sensitive typestate dataflow over go/ssa (ESP-style), value-provenance comparison",
@@ -35,6 +37,7 @@ CLAIMED = {
             "node without filter or early exit; node enumerators are unfiltered; every action field that reaches "
             "Run.EvaluateTemplate* is tagged engine:evaluated; NewResultSpecs merges every category; every router field that is "
             "evaluated or can hold dependencies is passed on by its enumerators. Also: the extraction chain from tagged fields to recorded references hands over under loop bounds, type arms, nil tests, EngineField flags and Reference.Variable() only, without leaving a loop early. "
+            "Round 3: a category's exit is validated against the node's exits (imported from C01 R10); SwitchRouter.Validate does not accept a laxer spelling of Case.Type than its consumers compare. "
             "Does not relate inspection to actual executions.",
             "table agreement between sibling implementations (saves vs declares) via SSA provenance, struct-tag audit, control-dependence check",
             "DESIGN.md §4 C20"),
@@ -49,6 +52,7 @@ CLAIMED = {
             "it indexes on every path (comparison with len of the same or a provably as-long value, range index, length getters, "
             "len-k, min, negative-index normalisation, sort's contract, index parameters forwarded to their call sites) or is one of "
             "15 listed sites with its reason. Also: every method invoked on an interface value of type XValue (null is a nil XValue) is on a value produced non-nil or under a nil/IsNil guard (also through parameters of unexported helpers). "
+            "Round 3: every XObject.Default() call is under hasDefault() of the same object (the object is its own no-default sentinel). "
             "Does not decide termination inside libraries for guarded operands, numeric results, "
             "or the listed sites beyond the stated argument.",
             "guard-dominance (control-dependence) check on partial-call operands, arity-table vs index agreement, path typestate on the arity wrapper",
@@ -62,6 +66,7 @@ CLAIMED = {
             "of every migrated legacy node and exit is a field of the legacy definition; every legacy action constructor writes a "
             "registered action type, only keys that are json fields of that action's struct and every field it requires; template-path "
             "wildcards agree between producer and consumer. Also: a required action field with an enumerating validator is written as a constant or defaulted to one on the empty edge at every call site; a truncation guard measures the value it cuts with a bound not above the limit; every slice/map-of-struct-pointers member of a definition struct carries dive,required (null elements are rejected at load). "
+            "Round 3: urnscheme is treated as an enumerating validator (constant, or under urns.IsValidScheme of the same value). "
             "Does not decide that migrated definitions load (whether a required text value without an enumerating validator can be empty is not decided), graph preservation, idempotence as a value-level fact, or equivalence of rewritten templates.",
             "registry/table agreement (AST constants), SSA shape check of migrate(), guard-dominance (control dependence) for nil/length/type tests, interprocedural nullable-map analysis",
             "DESIGN.md §4 C16"),
@@ -71,6 +76,7 @@ CLAIMED = {
             "(single site, same block as Run.SetStatus(waiting) on the run owning the new step, under wait!=nil and Begin()); "
             "flow-sensitive (run,step) pairing for every LogEvent/failRun site; event double-entry; path/exit ownership and exit "
             "provenance; terminal push, failure bubbling and failed-action-stops-node. Also: the terminal session status is stored only with no active parent left or after all runs were exited; the owners of session.status include unexported helpers only they call. "
+            "Round 3: Session.PushFlow is the point of no return (no Run.Exit reachable after it in its two callers); baseRouter.validate compares a category's exit with the node's exits and, evaluated for a set exit that is not among them, returns an error. "
             "Does not perform the induction over "
             "histories (waiting <=> exactly one waiting run, ancestors active, path is a walk for every graph).",
             "who-may-write + forward must-dataflow over go/ssa, variable-pair typestate over go/cfg, path-sensitive typestate",
@@ -93,6 +99,7 @@ CLAIMED = {
             "receivers are nil-tested; the Accepts decision "
             "table is evaluated exhaustively over resume type x timeout (total, every type accepted somewhere, no timeout resume "
             "without a timeout). Also: the resume limit fails the session (imported from C05 R3); every method invoked on a run's Flow() in engine and runs is under a nil test of the same expression or listed as execution-only. "
+            "Round 3: the node PathLocation returns is dereferenced, directly or by a callee, only under a test of the accompanying error or of the node. "
             "Does not compare session JSON before/after as an observed fact nor cover faults inside ReadSession.",
             "path enumeration with interprocedural root-sensitive write-effect summaries (go/ssa + CHA), guard dominance, finite-domain abstract interpretation of Accepts",
             "DESIGN.md §4 C10"),
@@ -117,6 +124,7 @@ CLAIMED = {
             "category; matchCase walks cases forward, returns only on this case's truthy result with this case's category and "
             "continues after an erroring test; an empty exit fails the run; the random index derives only from the draw and "
             "len(categories); Results.Save always stores. Also: the engine's choice of RouteTimeout traces through parameters and every call site only to a type test of the resume parameter or the constant false, never to session state; case arguments and category names use the documented language fallback (imported from C18 R1 R2). "
+            "Round 3: the two calendar days a date test compares are taken in the same timezone; translated case arguments are used only when they are as many as the base arguments. "
             "Does not decide what each test function matches.",
             "SSA value-provenance and guard-dominance checks on the router functions",
             "DESIGN.md §4 C07"),
@@ -127,6 +135,7 @@ CLAIMED = {
             "shared slices and deletes; package-level variables are written only from init chains; every flow-cache access is "
             "under the mutex with no reachable explicit unlock; package-level XObject/XArray values are constructed eagerly; "
             "localizable-text writers run only on a copy(). Also: an append to an uncopied slice of a shared object counts as a shared write; no pointer member of a JSON decode target aliases a package-level variable. "
+            "Round 3: members of shared objects that can hold X values are assigned eagerly built values only; SetDeprecated is never applied to a value that may be a package-level variable (followed through callee returns). "
             "Does not observe races, and does not cover third-party packages or "
             "the host's asset source.",
             "type-closure of shared state + interprocedural root-sensitive write-effect summaries (go/ssa + CHA), lock-region dominance",
@@ -138,6 +147,7 @@ CLAIMED = {
             "call in start and Resume, and parentRun has no other accessor); in the 7 type registries (triggers, resumes, inputs, "
             "events, modifiers, waits, hints; 69 struct types) the name a struct is registered under for reading is the type-name "
             "constant its constructors write. Also: event fields the reader requires get a guarded non-empty value; environments (envs) are covered like the other persisted types. "
+            "Round 3: a pointer field the read side restores only under a presence test is dereferenced by the marshal side only under a nil test. "
             "Does not decide that a restored session behaves "
             "identically (value-level), nor that re-derived values equal the live ones.",
             "marshal/read field-coverage and envelope symmetry (sibling-table agreement over go/ssa field accesses), dominance",
@@ -149,6 +159,7 @@ CLAIMED = {
             "text only on the edge dominated by the non-redacting policy test; every construction of a URN-typed query condition, the "
             "urn attribute and the bare-number tel rewrite are guarded by a policy test; the positive direction keeps scheme, path and "
             "display. Also: session.MergedEnvironment builds its wrapper on every call (or every writer of session.env resets the cache), so the policy in force is the session's current one. "
+            "Round 3: environment.Equal is sensitive to the redaction policy. "
             "Does not decide non-interference for values that enter the context as plain data.",
             "intraprocedural API-aware taint analysis over go/ssa, guard (edge-dominance) checks",
             "DESIGN.md §4 C19"),
@@ -160,6 +171,7 @@ CLAIMED = {
             "localization keys agree both ways between engine:localized tags (16 fields) and the 12 runtime lookups; evaluateMessage "
             "uses three independent lookups and the text -> attachments -> quick replies language choice; send_msg locales derive "
             "from the language actually used. Also: an IVR message's locale is the language of the very lookup whose text is the message content. "
+            "Round 3: a saved result always replaces the stored one (imported from C07 R5) and the merged environment is not a stale cache (imported from C19 R4). "
             "Does not enumerate the outcomes of all configurations.",
             "SSA shape/provenance checks of the fallback functions, struct-tag vs call-site table agreement",
             "DESIGN.md §4 C18"),
@@ -171,6 +183,7 @@ CLAIMED = {
             "the evaluator asserts agree with the static types Contact.QueryProperty/FieldValue.QueryValue produce for all 12 "
             "attributes, URNs and 6 field types; over 63 (value type, property class, operator) cells the validator admits only what "
             "the dispatched comparison function handles without panicking; node switches are exhaustive; Simplify compares operators. "
+            "Round 3: the Go types QueryValue can return are collected per field type by path enumeration (fall-through returns included); presence guards in QueryProperty test the field the value comes from. "
             "Does not decide date parsing of query values, tokenisation, or the comparison primitives themselves.",
             "finite-domain abstract interpretation (path typestate engine with abstract transfer tables), sibling-table agreement",
             "DESIGN.md §4 C15"),
@@ -182,6 +195,7 @@ CLAIMED = {
             "strconv.Quote image; operator constants are COMPARATOR literals; the printer uses the node's own operator, always "
             "parenthesises combinations; writer prefixes pair with reader arms; every type switch over QueryNode covers both node "
             "types and Simplify keeps every child, flattening only same-operator children. Also: the text ParseQuery hands to the lexer derives from its parameter through listed calls only (TrimSpace, the whole-text phone number rewrite). "
+            "Round 3: every return of ContactQueryEscaping is strconv.Quote of its argument, and inside Evaluator.Template the escaping call depends only on escaping != nil, the token type and the error test. "
             "Does not decide structural identity of re-parsed "
             "queries for all inputs.",
             "value provenance over go/ssa, regular-language (NFA->DFA) reasoning on the grammar's lexer rule, constant-pattern analysis, table agreement",
@@ -196,6 +210,7 @@ CLAIMED = {
             "evaluated per case against the documented behaviour; scanIdentifier returns the scanned text unmodified and IDENTIFIER "
             "only behind the lower-cased allowed-top-level test, and gives a disallowed name back with its '@'; TextLiteral.String is strconv.Quote of the full native value and "
             "the reader strconv.Unquote. Also: raw template parameters (those that reach NewXScanner) are otherwise only trimmed, measured, compared or passed on, so literal text reaches a result only as the scanner's BODY token. "
+            "Round 3: the input reader hands on every rune it reads; where a trimmed copy of a raw template is compared, that same copy is what is scanned. "
             "Does not decide the whole-string round trip for all UTF-8.",
             "finite-domain abstract interpretation of the scanner (path typestate engine over go/ssa), NFA->DFA reasoning on the grammar rule, provenance",
             "DESIGN.md §4 C12"),
@@ -207,6 +222,7 @@ CLAIMED = {
             "print the decimal's String; refactor.Template copies body text, scans without unescaping, re-wraps inversely to the "
             "scanner, keeps the original unless the transformer reports a change; ContextRefRename's changed flag is monotone and "
             "the rename guarded. Also: identifier text (Name, Lookup, Args) reaches the printed string only through formatting calls, the one listed normalisation (lower-casing a context reference) being backed by a who-may-write rule on Scope.get (XObject.Get and functions.Lookup, both shown to compare lower-cased names). "
+            "Round 3: in the migrations refactor.Template is called unconditionally (no textual pre-filter before a case-insensitive rewrite). "
             "Does not decide equality of evaluation results.",
             "sibling-table agreement across grammar text, AST doc tags and go/ssa provenance; shape checks of printers and refactor plumbing",
             "DESIGN.md §4 C11"),
@@ -218,6 +234,7 @@ CLAIMED = {
             "operator alternatives of Excellent1.g4 and Excellent3.g4 have the same precedence order and each visitor method emits the "
             "Excellent3 literal of the token it tested; no (value, error) call has its error discarded unless the callee never fails; "
             "hand-built text literals escape quote and backslash; body text is copied. Also: a migrated child expression is substituted whole, never sliced or textually edited. "
+            "Round 3: outside init no function of the expressions package writes a package-level variable (stores, map updates, mutating sync methods). "
             "Does not decide that renamed functions compute "
             "the same values, nor argument order inside explicit-index templates.",
             "abstract interpretation of string-building code (templates with holes and path guards) + grammar/table agreement + guard evidence on dominating branches",
@@ -230,6 +247,7 @@ CLAIMED = {
             "widths agree; decimalRegexp accepts every decimal.String rendering (automata inclusion); the JSON type switch covers the six "
             "value types with the matching X types and no gate narrower than the JSON number grammar; decimals marshal unquoted; every "
             "XValue has MarshalJSON; = and != are ToXText + string (in)equality. Also: any arithmetic on a parsed year is controlled by the length of the year text (true for 2 characters, false for 4). "
+            "Round 3: an XDateTime method that converts its receiver with In() prints no component of the unconverted receiver; XText marshals through the JSON encoder. "
             "Does not decide the library arithmetic, DST folds, "
             "second-granular UTC offsets or non-am/pm locales.",
             "writer/reader table agreement by constant evaluation of the source's own patterns and layouts; regular-language inclusion; finite-domain evaluation of an SSA fragment; go/ssa provenance",
